@@ -7,122 +7,97 @@ namespace Posmint.Props.C17
 open Posmint.Chain Posmint.Chain.ChainTx
 
 /-- the governance-controlled part of the state -/
-def govOf (s : State) : Params × List (String × Addr) × Addr := (s.p, s.acl, s.daoOwner)
+def govOf (s : State) : Params × List (String × Addr) × Addr × (Int × String) := (s.p, s.acl, s.daoOwner, s.upgrade)
 
 theorem govOf_eq_gov (s : State) : govOf s = gov s := rfl
 
 theorem signer_congr {s s1 : State} (hk : s1.keys = s.keys) (m : Msg) : m.signer s1 = m.signer s := by
   cases m <;> simp [Msg.signer, keyAddr, hk]
 
-/-- If a transaction changes any parameter, the ACL or the DAO owner, it is a delivered, accepted
-change-parameter message whose sender is the owner the ACL names for that key. -/
+theorem gov_change_aux (s s' : State) (mode : Mode) (t : Tx) (ok : Bool)
+    (hr : runTx s mode t = (s', ok)) (hg : gov s' ≠ gov s) :
+    mode = .deliver ∧ ok = true ∧ anteOK s t false = true ∧
+    ((∃ src key val, t.msg = .changeParam src key val ∧ s.acl.lookup key = some src) ∨
+     (∃ src h ver, t.msg = .upgrade src h ver ∧ s.acl.lookup "gov/upgrade" = some src)) := by
+  unfold runTx at hr
+  split at hr; · simp at hr; rw [hr.1] at hg; exact absurd rfl hg
+  split at hr; · simp at hr; rw [hr.1] at hg; exact absurd rfl hg
+  split at hr; · simp at hr; rw [hr.1] at hg; exact absurd rfl hg
+  rename_i _ _ ha
+  simp only at hr
+  cases mode with
+  | check => simp at hr; rw [hr.1] at hg; exact absurd rfl hg
+  | simulate => simp at hr; rw [hr.1] at hg; exact absurd rfl hg
+  | deliver =>
+    have hmd : (Mode.deliver == Mode.simulate) = false := by decide
+    have ha' : anteOK s t false = true := by rw [hmd] at ha; simpa using ha
+    simp only at hr
+    split at hr
+    · rename_i s1 h1
+      simp at hr
+      obtain ⟨rfl, rfl⟩ := hr
+      refine ⟨rfl, rfl, ha', ?_⟩
+      have hfee : gov ((send2 ((send s (t.msg.signer s) s.feeAcc t.feeEff).getD s) (t.msg.signer s) s.feeAcc t.fee2).getD
+          ((send s (t.msg.signer s) s.feeAcc t.feeEff).getD s)) = gov s := by
+        rw [gov_send2_getD, gov_send_getD]
+      have hacl := hfee
+      simp only [gov, Prod.mk.injEq] at hacl
+      by_cases hcp : ∃ src key val, t.msg = .changeParam src key val
+      · obtain ⟨src, key, val, hm⟩ := hcp
+        refine Or.inl ⟨src, key, val, hm, ?_⟩
+        rw [hm] at h1
+        simp only [handle] at h1
+        split at h1
+        · simp at h1
+        · rename_i owner ho
+          split at h1
+          · simp at h1
+          · rename_i hne
+            have : owner = src := by simpa using hne
+            subst this
+            rw [← hacl.2.1, hm]; exact ho
+      · by_cases hup : ∃ src h ver, t.msg = .upgrade src h ver
+        · obtain ⟨src, h, ver, hm⟩ := hup
+          refine Or.inr ⟨src, h, ver, hm, ?_⟩
+          rw [hm] at h1
+          rw [← hacl.2.1, hm]
+          exact (F2.handle_upgrade_some h1).1
+        · exfalso
+          apply hg
+          rw [gov_handle h1 (fun src key val h => hcp ⟨src, key, val, h⟩) (fun src h ver e => hup ⟨src, h, ver, e⟩), hfee]
+    · simp at hr
+      rw [← hr.1] at hg
+      exact absurd (by rw [gov_send2_getD, gov_send_getD]) hg
+
+/-- If a transaction changes any parameter, the ACL, the DAO owner or the upgrade plan, it is a delivered, accepted
+change-parameter message whose sender is the owner the ACL names for that key, or a delivered, accepted upgrade
+message whose sender is the owner the ACL names for `gov/upgrade`. -/
 theorem param_change_authorised (s s' : State) (mode : Mode) (t : Tx) (ok : Bool)
     (hr : runTx s mode t = (s', ok)) (hc : s'.p.minStake ≠ s.p.minStake ∨ s'.p.maxVals ≠ s.p.maxVals ∨
       s'.p.unstakingTime ≠ s.p.unstakingTime ∨ s'.p.window ≠ s.p.window ∨ s'.p.minSignedRaw ≠ s.p.minSignedRaw ∨
       s'.p.maxMemo ≠ s.p.maxMemo ∨ s'.p.jailDur ≠ s.p.jailDur ∨ s'.p.maxAge ≠ s.p.maxAge ∨
       s'.p.sfDouble ≠ s.p.sfDouble ∨ s'.p.sfDown ≠ s.p.sfDown ∨ s'.p.feeBase ≠ s.p.feeBase ∨
-      s'.acl ≠ s.acl ∨ s'.daoOwner ≠ s.daoOwner) :
+      s'.acl ≠ s.acl ∨ s'.daoOwner ≠ s.daoOwner ∨ s'.upgrade ≠ s.upgrade) :
     mode = .deliver ∧ ok = true ∧ anteOK s t false = true ∧
-    ∃ src key val, t.msg = .changeParam src key val ∧ s.acl.lookup key = some src := by
+    ((∃ src key val, t.msg = .changeParam src key val ∧ s.acl.lookup key = some src) ∨
+     (∃ src h ver, t.msg = .upgrade src h ver ∧ s.acl.lookup "gov/upgrade" = some src)) := by
   have hg : gov s' ≠ gov s := by
     intro e
     simp only [gov, Prod.mk.injEq] at e
-    obtain ⟨e1, e2, e3⟩ := e
-    rw [e1, e2, e3] at hc
+    obtain ⟨e1, e2, e3, e4⟩ := e
+    rw [e1, e2, e3, e4] at hc
     simp at hc
-  unfold runTx at hr
-  split at hr; · simp at hr; rw [hr.1] at hg; exact absurd rfl hg
-  split at hr; · simp at hr; rw [hr.1] at hg; exact absurd rfl hg
-  split at hr; · simp at hr; rw [hr.1] at hg; exact absurd rfl hg
-  rename_i _ _ ha
-  simp only at hr
-  cases mode with
-  | check => simp at hr; rw [hr.1] at hg; exact absurd rfl hg
-  | simulate => simp at hr; rw [hr.1] at hg; exact absurd rfl hg
-  | deliver =>
-    have hmd : (Mode.deliver == Mode.simulate) = false := by decide
-    have ha' : anteOK s t false = true := by rw [hmd] at ha; simpa using ha
-    simp only at hr
-    split at hr
-    · rename_i s1 h1
-      simp at hr
-      obtain ⟨rfl, rfl⟩ := hr
-      refine ⟨rfl, rfl, ha', ?_⟩
-      cases hm : t.msg with
-      | changeParam src key val =>
-        refine ⟨src, key, val, rfl, ?_⟩
-        rw [hm] at h1
-        simp only [handle] at h1
-        split at h1
-        · simp at h1
-        · rename_i owner ho
-          split at h1
-          · simp at h1
-          · rename_i hne
-            have : owner = src := by simpa using hne
-            subst this
-            have : gov ((send2 ((send s (t.msg.signer s) s.feeAcc t.feeEff).getD s) (t.msg.signer s) s.feeAcc t.fee2).getD
-                ((send s (t.msg.signer s) s.feeAcc t.feeEff).getD s)) = gov s := by
-              rw [gov_send2_getD, gov_send_getD]
-            simp only [gov, Prod.mk.injEq] at this
-            rw [← this.2.1]; rw [hm]; exact ho
-      | _ =>
-        exfalso
-        apply hg
-        rw [gov_handle h1 (by rw [hm]; intro _ _ _ h; cases h), gov_send2_getD, gov_send_getD]
-    · simp at hr
-      rw [← hr.1] at hg
-      exact absurd (by rw [gov_send2_getD, gov_send_getD]) hg
+  exact gov_change_aux s s' mode t ok hr hg
 
-/-- The same, in terms of the whole governance state (all parameters, the ACL, the DAO owner): if a transaction
-changes any of it, it was a delivered, accepted change-param message sent by the owner the ACL names for that key. -/
+/-- The same, in terms of the whole governance state (all parameters, the ACL, the DAO owner, the upgrade plan): if a
+transaction changes any of it, it was a delivered, accepted change-param message sent by the owner the ACL names for
+that key, or a delivered, accepted upgrade message sent by the owner of `gov/upgrade`. -/
 theorem gov_change_authorised (s s' : State) (mode : Mode) (t : Tx) (ok : Bool)
     (hr : runTx s mode t = (s', ok)) (hg : gov s' ≠ gov s) :
     mode = .deliver ∧ ok = true ∧ anteOK s t false = true ∧
-    ∃ src key val, t.msg = .changeParam src key val ∧ s.acl.lookup key = some src := by
-  unfold runTx at hr
-  split at hr; · simp at hr; rw [hr.1] at hg; exact absurd rfl hg
-  split at hr; · simp at hr; rw [hr.1] at hg; exact absurd rfl hg
-  split at hr; · simp at hr; rw [hr.1] at hg; exact absurd rfl hg
-  rename_i _ _ ha
-  simp only at hr
-  cases mode with
-  | check => simp at hr; rw [hr.1] at hg; exact absurd rfl hg
-  | simulate => simp at hr; rw [hr.1] at hg; exact absurd rfl hg
-  | deliver =>
-    have hmd : (Mode.deliver == Mode.simulate) = false := by decide
-    have ha' : anteOK s t false = true := by rw [hmd] at ha; simpa using ha
-    simp only at hr
-    split at hr
-    · rename_i s1 h1
-      simp at hr
-      obtain ⟨rfl, rfl⟩ := hr
-      refine ⟨rfl, rfl, ha', ?_⟩
-      cases hm : t.msg with
-      | changeParam src key val =>
-        refine ⟨src, key, val, rfl, ?_⟩
-        rw [hm] at h1
-        simp only [handle] at h1
-        split at h1
-        · simp at h1
-        · rename_i owner ho
-          split at h1
-          · simp at h1
-          · rename_i hne
-            have : owner = src := by simpa using hne
-            subst this
-            have : gov ((send2 ((send s (t.msg.signer s) s.feeAcc t.feeEff).getD s) (t.msg.signer s) s.feeAcc t.fee2).getD
-                ((send s (t.msg.signer s) s.feeAcc t.feeEff).getD s)) = gov s := by
-              rw [gov_send2_getD, gov_send_getD]
-            simp only [gov, Prod.mk.injEq] at this
-            rw [← this.2.1]; rw [hm]; exact ho
-      | _ =>
-        exfalso
-        apply hg
-        rw [gov_handle h1 (by rw [hm]; intro _ _ _ h; cases h), gov_send2_getD, gov_send_getD]
-    · simp at hr
-      rw [← hr.1] at hg
-      exact absurd (by rw [gov_send2_getD, gov_send_getD]) hg
+    ((∃ src key val, t.msg = .changeParam src key val ∧ s.acl.lookup key = some src) ∨
+     (∃ src h ver, t.msg = .upgrade src h ver ∧ s.acl.lookup "gov/upgrade" = some src)) :=
+  gov_change_aux s s' mode t ok hr hg
 
 
 /-- Such a change alters the parameter named by the key alone. -/
@@ -130,19 +105,32 @@ theorem change_only_that_key (s : State) (key val : String) :
     let s' := applyParam s key val
     (key ≠ "gov/acl" → s'.acl = s.acl) ∧ s'.bal = s.bal ∧ s'.supply = s.supply ∧ s'.vals = s.vals ∧
     (key ≠ "gov/daoOwner" → s'.daoOwner = s.daoOwner) ∧
+    (key ≠ "gov/upgrade" → s'.upgrade = s.upgrade) ∧
     (key ≠ "pos/MaxValidators" → s'.p.maxVals = s.p.maxVals) ∧
     (key ≠ "pos/StakeMinimum" → s'.p.minStake = s.p.minStake) ∧
     (key ≠ "pos/UnstakingTime" → s'.p.unstakingTime = s.p.unstakingTime) ∧
     (key ≠ "pos/SignedBlocksWindow" → s'.p.window = s.p.window) ∧
     (key ≠ "pos/MinSignedPerWindow" → s'.p.minSignedRaw = s.p.minSignedRaw) ∧
     (key ≠ "auth/MaxMemoCharacters" → s'.p.maxMemo = s.p.maxMemo) ∧
-    s'.p.jailDur = s.p.jailDur ∧ s'.p.maxAge = s.p.maxAge ∧ s'.p.sfDouble = s.p.sfDouble ∧
-    s'.p.sfDown = s.p.sfDown ∧ s'.p.feeBase = s.p.feeBase := by
+    (key ≠ "pos/DowntimeJailDuration" → s'.p.jailDur = s.p.jailDur) ∧
+    (key ≠ "pos/MaxEvidenceAge" → s'.p.maxAge = s.p.maxAge) ∧
+    (key ≠ "pos/SlashFractionDoubleSign" → s'.p.sfDouble = s.p.sfDouble) ∧
+    (key ≠ "pos/SlashFractionDowntime" → s'.p.sfDown = s.p.sfDown) ∧
+    s'.p.feeBase = s.p.feeBase ∧ s'.p.feeChangeParam = s.p.feeChangeParam ∧ s'.p.feeDao = s.p.feeDao ∧
+    s'.p.feeUpgrade = s.p.feeUpgrade := by
   intro s'
-  simp only [s']
+  have hs : s' = applyParam s key val := rfl
+  clear_value s'
+  subst hs
   unfold applyParam
   repeat' split
   all_goals simp
+
+/-- An accepted upgrade message sets the plan to exactly the stated height and version and touches nothing else. -/
+theorem upgrade_sets_plan (s s1 : State) (src : Addr) (h : Int) (ver : String)
+    (hh : handle s (.upgrade src h ver) = some s1) :
+    s.acl.lookup "gov/upgrade" = some src ∧ s1 = { s with upgrade := (h, ver) } :=
+  F2.handle_upgrade_some hh
 
 /-! ### the access-control list is replaced as a whole; hand-over and dropping of one key as special cases -/
 
@@ -295,10 +283,11 @@ theorem block_ops_keep_gov (s : State) (op : Op) (r : State × List (Addr × Int
 
 
 /-- For every history: the governance state at the end differs from the one at the start only if the history
-contains a delivered change-param transaction; block-level operations, CheckTx / simulate traffic and every other
-transaction leave all parameters, the ACL and the DAO owner as they were. -/
+contains a delivered change-param or upgrade transaction; block-level operations, CheckTx / simulate traffic and every
+other transaction leave all parameters, the ACL, the DAO owner and the upgrade plan as they were. -/
 theorem gov_run (ops : List Op) (s s' : State) (hr : run s ops = some s')
-    (hno : ∀ op ∈ ops, ∀ t src key val, op = .tx .deliver t → t.msg ≠ .changeParam src key val) :
+    (hno : ∀ op ∈ ops, ∀ t src key val, op = .tx .deliver t → t.msg ≠ .changeParam src key val)
+    (hnu : ∀ op ∈ ops, ∀ t src h ver, op = .tx .deliver t → t.msg ≠ .upgrade src h ver) :
     govOf s' = govOf s := by
   induction ops generalizing s with
   | nil => simp [run] at hr; subst hr; rfl
@@ -310,6 +299,7 @@ theorem gov_run (ops : List Op) (s s' : State) (hr : run s ops = some s')
       rw [hstep] at hr
       simp only [Option.bind_some] at hr
       have hrest := ih r.1 hr (fun o ho => hno o (List.mem_cons_of_mem _ ho))
+        (fun o ho => hnu o (List.mem_cons_of_mem _ ho))
       rw [hrest]
       by_cases hop : ∃ m t, op = .tx m t
       · obtain ⟨m, t, rfl⟩ := hop
@@ -320,10 +310,12 @@ theorem gov_run (ops : List Op) (s s' : State) (hr : run s ops = some s')
         by_cases hg : gov (runTx s m t).1 = gov s
         · exact hg
         · exfalso
-          obtain ⟨hm, _, _, src, key, val, hmsg, _⟩ :=
+          obtain ⟨hm, _, _, hcase⟩ :=
             gov_change_authorised s (runTx s m t).1 m t (runTx s m t).2 rfl hg
           subst hm
-          exact hno _ List.mem_cons_self t src key val rfl hmsg
+          rcases hcase with ⟨src, key, val, hmsg, _⟩ | ⟨src, h, ver, hmsg, _⟩
+          · exact hno _ List.mem_cons_self t src key val rfl hmsg
+          · exact hnu _ List.mem_cons_self t src h ver rfl hmsg
       · exact block_ops_keep_gov s op r (fun m t h => hop ⟨m, t, h⟩) hstep
 
 /-- DAO funds leave the DAO account only by a delivered, accepted DAO message from the DAO owner,
